@@ -4,6 +4,7 @@ One command per input line, one canonical answer per output line.  Unknown or ma
 commands answer `bad-op` — the driver never defaults.
 -/
 import ShapeVerif.Model.Primitive
+import ShapeVerif.Model.CurveIn
 
 open ShapeVerif
 
@@ -169,6 +170,7 @@ def run (cmd : String) : P String := do
   | "simplej" => do let j ← pJordan; pure (fBool (simpleJ j))
   | "genpos" => do let js ← pList pJordan; pure (fBool (generalPosition js))
   | "transversal" => do let a ← pShape; let b ← pShape; pure (fBool (transversal a b))
+  | "curvein" => do let s ← pShape; let j ← pJordan; let b ← pBool; pure (fBool (curveIn s j b))
   | "cleanj" => do let j ← pJordan; pure (fJordan (cleanJ j))
   | "canon" => do let s ← pShape; pure (fShape (canonShape s))
   | "eqj" => do let a ← pJordan; let b ← pJordan; pure (fBool (eqJ a b))
